@@ -7,10 +7,9 @@ FAMS = {'ls', 'ls_wb', 'ls_hd', 'ls_wb_undef', 'ls_hd_aux'}
 SCTLR_AU = (1 << 1) | (1 << 22)
 
 # anchor rows run in the quick tier with SCTLR.A/U symbolic; every other row runs with the reset policy in quick
-QUICK_POLICY_SYM = ['LdrRegisterArmA1', 'LdrImmediateThumbT1', 'LdrImmediateThumbT2', 'LdrImmediateThumbT3',
-                    'LdrImmediateThumbT4', 'LdrshRegisterA1', 'LdrshRegisterT1', 'LdrshRegisterT2', 'StrRegisterA1',
-                    'StrRegisterT1', 'StrRegisterT2', 'LdrdImmediateA1', 'LdrdImmediateT1', 'StrexA1', 'StrexT1',
-                    'LdrtA1', 'LdrtA2', 'LdrtT1']
+QUICK_POLICY_SYM = ['LdrRegisterArmA1', 'LdrImmediateThumbT1', 'LdrImmediateThumbT2', 'LdrshRegisterA1',
+                    'LdrshRegisterT1', 'StrRegisterA1', 'StrRegisterT1', 'LdrdImmediateA1', 'StrexA1', 'StrexT1',
+                    'LdrtA1', 'LdrtT1', 'StrhImmediateT1', 'StrImmediateThumbT1']
 
 
 def units(tier, seed=0):
